@@ -289,6 +289,8 @@ def main():
     real_out = sys.stdout
     sys.stdout = io.StringIO()       # dagrt prints diagnostics to stdout; keep the answer channel clean
     import dagrt
+    from simdag.seams.memory import own_uninitialised_memory
+    own_uninitialised_memory()
     repo = os.path.realpath(os.environ.get("VERIF_REPO", "/repo"))
     assert os.path.realpath(dagrt.__file__).startswith(repo + os.sep), dagrt.__file__
     answers = []
